@@ -125,6 +125,12 @@ def impl(case):
     return {"runs": res}
 
 
+def _names_file(err, name):
+    """an ERROR message naming the file (the progress bar's 'Loading bad.json' line does not count)"""
+    import re
+    return re.search(r"Error[^\r\n]*" + re.escape(name), err) is not None
+
+
 def _exc_class(case, r):
     return r.get("exc") or "none"
 
@@ -143,7 +149,7 @@ def monitor(case, obs):
             hits.append({"prop": "C20", "key": f"exit-zero:{k}", "what": f"malformed {k} file as {pos} file ({case['label']}): exit status {r['rc']}"})
         if r["out"].strip() != "":
             hits.append({"prop": "C20", "key": f"printed-diff:{k}", "what": f"malformed {k} file as {pos} file ({case['label']}): wrote to stdout: {r['out'][:80]!r}"})
-        if ("bad." + k) not in r["err"]:
+        if not _names_file(r["err"], "bad." + k):
             hits.append({"prop": "C20", "key": f"no-filename:{k}", "what": f"malformed {k} file as {pos} file ({case['label']}): stderr does not name the file: {r['err'][:120]!r}"})
     return hits
 
@@ -159,7 +165,7 @@ def expect(case, obs):
     # abstract observation: for each position (rc != 0, stdout empty, stderr names file, no exception)
     res = []
     for r in obs["runs"]:
-        res.append([r["exc"] is None and r["rc"] not in (0, None), r["out"].strip() == "", ("bad." + case["kind"]) in r["err"]])
+        res.append([r["exc"] is None and r["rc"] not in (0, None), r["out"].strip() == "", _names_file(r["err"], "bad." + case["kind"])])
     return {"runs": res}
 
 
